@@ -2,6 +2,7 @@ package rules
 
 import (
 	"go/ast"
+	"go/token"
 	"go/types"
 
 	"verif/internal/core"
@@ -17,6 +18,13 @@ func init() { Registry["C12"] = c12 }
 // stored by a tuple assignment. Mutants re-tried on refactored forms: 404 put unconditionally through
 // the closure → R-C12-2; extracted hit decision without the chain test → R-C12-2; header guard of
 // the success put dropped in the extracted path walk → R-C12-1.
+//
+// Second iteration: the cache may be any golang-lru value reached through a local or a
+// same-package wrapper type with get/put methods (Get / Add are recognised by the receiver's
+// type); the key is followed package-wide to its concatenation, through helpers taking the request
+// or its fields and through a key computed once by the caller; freshness accepts a cache built
+// before the instance literal and a new wrapper literal. Mutants re-tried: rule-level cacheability
+// dropped → R-C12-2; key helper without delimiters → R-C12-3; failureCacheable always true → R-C12-2.
 func c12(c *core.Ctx) string {
 	c.Rule("R-C12-1", "no header dependence: no cache put is reachable in a state in which a branch on the header matcher has been taken since function entry (the key does not contain headers)")
 	c.Rule("R-C12-2", "IP dependence re-validated: every IP-filter test passed on a path to a cache put is re-evaluated on the hit path before the cached value is returned (server-level test before the lookup or chain check on hit; no put after a non-nil rule/path filter of an earlier entry was passed; failure routes only when no rule-level filter was consulted)")
@@ -168,123 +176,85 @@ func c12Search(c *core.Ctx, s *searchInfo) {
 	}
 }
 
-// keyShape extracts the components of the cache key built in fn: a list of
-// ("var", rendering-without-receiver) / ("const", value).
-func keyShape(c *core.Ctx, f *flow.Func) ([][2]string, ast.Node) {
-	shape, at := keyShapeIn(c, f)
-	if shape != nil {
-		return shape, at
+// keyShape extracts the components of the key handed to cache.<method> in f: a list of
+// ("var", accessor) / ("const", value). The key expression is followed through locals, parameters
+// (all call sites in the package) and same-package helpers to the concatenation that builds it
+// (stringtool.Cat(..) or a + b + c); each component is followed the same way to the request
+// accessor it is (req.Host() ...). Every origin must give the same shape.
+func keyShape(c *core.Ctx, f *flow.Func, ro *muxRoles, method string) ([][2]string, ast.Node) {
+	vf := newMuxFlow(funcsByRole(c, hs, func(g *flow.Func, fd *ast.FuncDecl) bool { return true }))
+	var keyExpr ast.Expr
+	for _, call := range calls(f.Body, true) {
+		if ro.cacheMethodCall(f.Info, call, method) && len(call.Args) >= 1 {
+			keyExpr = call.Args[0]
+		}
 	}
-	// the key may be built by a same-package helper taking the request
-	for _, call := range calls(f.Body, false) {
-		fo, ok := f.Callee(call).(*types.Func)
-		if !ok || fo.Pkg() == nil || fo.Pkg() != f.Pkg.Types {
-			continue
+	if keyExpr == nil {
+		return nil, nil
+	}
+	component := func(e ast.Expr) [2]string {
+		if v, ok := f.Info.Types[e]; ok && v.Value != nil {
+			return [2]string{"const", v.Value.ExactString()}
 		}
-		sig := fo.Type().(*types.Signature)
-		if sig.Results().Len() != 1 || sig.Results().At(0).Type().String() != "string" {
-			continue
-		}
-		for _, file := range f.Pkg.Syntax {
-			for _, d := range file.Decls {
-				if fd, ok := d.(*ast.FuncDecl); ok && fd.Body != nil && f.Info.Defs[fd.Name] == fo {
-					if sh, a := keyShapeIn(c, flow.NewFunc(f.Pkg, fd)); sh != nil {
-						return sh, a
-					}
+		name := ""
+		for _, v := range vf.flat(e) {
+			if v.root == nil && v.expr != nil {
+				if tv, ok := f.Info.Types[v.expr]; ok && tv.Value != nil {
+					return [2]string{"const", tv.Value.ExactString()}
 				}
 			}
+			call, ok := v.expr.(*ast.CallExpr)
+			full := ""
+			if ok && v.root == nil {
+				full = calleeFull(f, call)
+			}
+			if full == "" || (name != "" && name != full) {
+				return [2]string{"var", "?" + f.Render(e)}
+			}
+			name = full
 		}
+		if name == "" {
+			return [2]string{"var", "?" + f.Render(e)}
+		}
+		return [2]string{"var", name}
 	}
-	return nil, nil
-}
-
-func keyShapeIn(c *core.Ctx, f *flow.Func) ([][2]string, ast.Node) {
+	var flatten func(e ast.Expr, parts *[][2]string)
+	flatten = func(e ast.Expr, parts *[][2]string) {
+		e = ast.Unparen(e)
+		if be, ok := e.(*ast.BinaryExpr); ok && be.Op == token.ADD {
+			flatten(be.X, parts)
+			flatten(be.Y, parts)
+			return
+		}
+		*parts = append(*parts, component(e))
+	}
 	var shape [][2]string
 	var at ast.Node
-	var reqName func(e ast.Expr) (string, bool)
-	reqName = func(e ast.Expr) (string, bool) {
-		// req.Host() / req.Method() / req.Path()  → method name
-		if id, isID := ast.Unparen(e).(*ast.Ident); isID {
-			// a local: exactly one definition, which is itself an accessor call
-			obj := f.Info.Uses[id]
-			var defs []ast.Expr
-			ast.Inspect(f.Body, func(n ast.Node) bool {
-				if as, ok := n.(*ast.AssignStmt); ok && len(as.Lhs) == len(as.Rhs) {
-					for i, l := range as.Lhs {
-						if lid, ok := l.(*ast.Ident); ok && (f.Info.Defs[lid] == obj || f.Info.Uses[lid] == obj) && obj != nil {
-							defs = append(defs, as.Rhs[i])
-						}
-					}
-				}
-				return true
-			})
-			if len(defs) == 1 {
-				return reqName(defs[0])
-			}
-			return "", false
+	for _, v := range vf.flat(keyExpr) {
+		if v.root != nil || v.expr == nil {
+			return nil, nil
 		}
-		call, ok := ast.Unparen(e).(*ast.CallExpr)
-		if !ok {
-			return "", false
+		var parts [][2]string
+		switch x := ast.Unparen(v.expr).(type) {
+		case *ast.CallExpr:
+			if !calleeIs(f, x, "pkg/util/stringtool.Cat") {
+				return nil, nil
+			}
+			for _, a := range x.Args {
+				parts = append(parts, component(a))
+			}
+		case *ast.BinaryExpr:
+			flatten(x, &parts)
+		default:
+			if tv, ok := f.Info.Types[v.expr]; ok && tv.Value != nil {
+				continue // e.g. "" for a disabled cache
+			}
+			return nil, nil
 		}
-		full := calleeFull(f, call)
-		if full == "" {
-			return "", false
+		if shape != nil && sprintf("%v", shape) != sprintf("%v", parts) {
+			return nil, nil
 		}
-		return full, true
-	}
-	ast.Inspect(f.Body, func(n ast.Node) bool {
-		call, ok := n.(*ast.CallExpr)
-		if !ok || shape != nil {
-			return true
-		}
-		if calleeIs(f, call, "pkg/util/stringtool.Cat") {
-			at = call
-			for _, a := range call.Args {
-				if v, ok := f.Info.Types[a]; ok && v.Value != nil {
-					shape = append(shape, [2]string{"const", v.Value.ExactString()})
-				} else if name, ok := reqName(a); ok {
-					shape = append(shape, [2]string{"var", name})
-				} else {
-					shape = append(shape, [2]string{"var", "?" + f.Render(a)})
-				}
-			}
-		}
-		return true
-	})
-	if shape == nil {
-		// a + b + c
-		ast.Inspect(f.Body, func(n ast.Node) bool {
-			as, ok := n.(*ast.AssignStmt)
-			if !ok || shape != nil || len(as.Rhs) != 1 {
-				return true
-			}
-			if tv, ok := f.Info.Types[as.Rhs[0]]; !ok || tv.Type == nil || tv.Type.String() != "string" {
-				return true
-			}
-			var flat func(e ast.Expr) bool
-			var parts [][2]string
-			flat = func(e ast.Expr) bool {
-				e = ast.Unparen(e)
-				if be, ok := e.(*ast.BinaryExpr); ok && be.Op.String() == "+" {
-					return flat(be.X) && flat(be.Y)
-				}
-				if v, ok := f.Info.Types[e]; ok && v.Value != nil {
-					parts = append(parts, [2]string{"const", v.Value.ExactString()})
-					return true
-				}
-				if name, ok := reqName(e); ok {
-					parts = append(parts, [2]string{"var", name})
-					return true
-				}
-				return false
-			}
-			if _, isBin := ast.Unparen(as.Rhs[0]).(*ast.BinaryExpr); isBin && flat(as.Rhs[0]) {
-				shape = parts
-				at = as
-			}
-			return true
-		})
+		shape, at = parts, v.expr
 	}
 	return shape, at
 }
@@ -308,8 +278,8 @@ func c12Key(c *core.Ctx) {
 		return
 	}
 	getName, putName := muxFuncConstruct(get), muxFuncConstruct(put)
-	gs, gat := keyShape(c, get)
-	ps, pat := keyShape(c, put)
+	gs, gat := keyShape(c, get, ro, "Get")
+	ps, pat := keyShape(c, put, ro, "Add")
 	if gs == nil || ps == nil {
 		c.Undecide("R-C12-3", hs+".cache key|construction", pos(c, get.Body), "cannot find the key construction (stringtool.Cat or + concatenation of request accessors)")
 		return
@@ -383,18 +353,22 @@ func hasSuffix(s, suf string) bool { return len(s) >= len(suf) && s[len(s)-len(s
 func c12Fresh(c *core.Ctx) { muxCacheFresh(c, "R-C12-5") }
 
 // muxCacheFresh is shared with C11 (a cache carried over a reload keeps routes of the old generation).
-// Every store to the instance's cache field must take a freshly created cache: the result of an lru
-// constructor, nil, a local that only ever holds such values, or the result of a same-package helper
-// whose returns are such values.
+// Every store to a cache field — the instance's cache field and every lru-typed field of a
+// same-package wrapper type — must take a freshly created value: the result of an lru constructor,
+// nil, a new composite literal of the wrapper type, a local that only ever holds such values, or
+// the result of a same-package helper whose returns are such values.
 func muxCacheFresh(c *core.Ctx, rule string) {
 	ro := muxRolesOf(c, rule)
 	if ro == nil {
 		return
 	}
-	cacheF := ro.cacheF
-	if cacheF == nil {
-		c.Errorf("%s: anchor: the instance has no cache field (a field of a golang-lru cache type)", rule)
+	if ro.cacheF == nil {
+		c.Errorf("%s: anchor: the instance has no cache field (a field of a golang-lru cache type or of a same-package wrapper of one)", rule)
 		return
+	}
+	pkgT := c.Prog.Pkg(hs).Types
+	isCacheField := func(v *types.Var) bool {
+		return v != nil && v.IsField() && v.Pkg() == pkgT && (v == ro.cacheF || muxIsLRU(v.Type()))
 	}
 	stores := 0
 	for _, g := range funcsByRole(c, hs, func(g *flow.Func, fd *ast.FuncDecl) bool { return true }) {
@@ -409,6 +383,15 @@ func muxCacheFresh(c *core.Ctx, rule string) {
 			full := calleeFull(g, call)
 			return full == "github.com/hashicorp/golang-lru.NewARC" || full == "github.com/hashicorp/golang-lru.New2Q" || full == "github.com/hashicorp/golang-lru.New"
 		}
+		isNewWrapper := func(e ast.Expr) bool {
+			cl := litOf(e)
+			if cl == nil {
+				return false
+			}
+			tv, ok := g.Info.Types[cl]
+			n := muxDerefNamed(tv.Type)
+			return ok && n != nil && n.Obj().Pkg() == pkgT
+		}
 		check := func(rhs ast.Expr, at ast.Node) {
 			stores++
 			if vf == nil {
@@ -418,7 +401,7 @@ func muxCacheFresh(c *core.Ctx, rule string) {
 			vals := vf.flat(rhs)
 			for _, v := range vals {
 				switch {
-				case v.root == nil && v.expr != nil && (isCtor(v.expr) || g.Info.Types[v.expr].IsNil()):
+				case v.root == nil && v.expr != nil && (v.zero || isCtor(v.expr) || isNewWrapper(v.expr) || g.Info.Types[v.expr].IsNil()):
 				default:
 					ok = false
 				}
@@ -434,7 +417,11 @@ func muxCacheFresh(c *core.Ctx, rule string) {
 					if !ok {
 						continue
 					}
-					if sl := g.Info.Selections[sel]; sl == nil || sl.Obj() != cacheF {
+					sl := g.Info.Selections[sel]
+					if sl == nil {
+						continue
+					}
+					if fv, _ := sl.Obj().(*types.Var); !isCacheField(fv) {
 						continue
 					}
 					switch {
@@ -448,10 +435,18 @@ func muxCacheFresh(c *core.Ctx, rule string) {
 					}
 				}
 			case *ast.CompositeLit:
-				if tv, ok := g.Info.Types[x]; ok && muxSameNamed(muxDerefNamed(tv.Type), ro.instT) {
-					for _, el := range x.Elts {
-						if kv, ok := el.(*ast.KeyValueExpr); ok {
-							if k, ok := kv.Key.(*ast.Ident); ok && k.Name == cacheF.Name() {
+				tv, ok := g.Info.Types[x]
+				if !ok {
+					return true
+				}
+				n := muxDerefNamed(tv.Type)
+				if n == nil || n.Obj().Pkg() != pkgT {
+					return true
+				}
+				for _, el := range x.Elts {
+					if kv, ok := el.(*ast.KeyValueExpr); ok {
+						if k, ok := kv.Key.(*ast.Ident); ok {
+							if fv := muxOneField(n, k.Name, func(v *types.Var) bool { return v.Name() == k.Name }); isCacheField(fv) {
 								check(kv.Value, kv)
 							}
 						}
